@@ -21,7 +21,9 @@ P = hs.params()
 
 ATOMS = ['"a"', '"\\n"', r'/\n/', r'/\s/', r'/\S/', r'/\d/', r'/\D/', r'/\w/', r'/\W/', '/./', '/[^a]/', '/[a-z]/',
          r'/[\x00-\x20]/', r'/[\t-\r]/', r'/\x0a/', r'/\012/', '/./s', '/(?s:.)/', '/[^\\n]/', r'/[\W]/', r'/[\d\D]/', '"A"i',
-         r'/\u000a/', r'/[\S]/']
+         r'/\u000a/', r'/[\S]/',
+         # ranges with the newline as lower / upper bound, and just missing it on either side
+         r'/[\t-\n]/', r'/[\n-\r]/', r'/[\x0b-\r]/', r'/[\x00-\t]/', r'/[^\x00-\t]/']
 
 
 def spellings(tier):
